@@ -486,6 +486,11 @@ class FnTrans:
             return self.block(s.get("inner", []), env, k)
         if kind in ("NullStmt",):
             return k(env)
+        if kind == "GCCAsmStmt":
+            # only the empty `__asm__("")` barrier of _dispatch_hardware_crash() is accepted
+            if s.get("inner"):
+                self.err(s, "inline asm with operands")
+            return k(env)
         if kind == "AttributedStmt":
             return self.block([c for c in s["inner"] if "Attr" not in c["kind"]], env, k)
         if kind == "LabelStmt":
@@ -1277,6 +1282,14 @@ class FnTrans:
             root, path = self.member_root(n)
             self.err(n, "pointer dereference")
         if op == "&":
+            # &global_array[i]  ->  (addr_table i) for arrays declared in targets.json "addr_tables"
+            m = skip_paren(x)
+            if m.get("kind") == "ArraySubscriptExpr":
+                base = skip_paren(m["inner"][0])
+                at = self.tr.cfg.get("addr_tables", {})
+                if base.get("kind") == "DeclRefExpr" and base["referencedDecl"].get("name") in at:
+                    idx = self.E(m["inner"][1], env, lets)
+                    return "(%s %s)" % (at[base["referencedDecl"]["name"]], idx)
             self.err(n, "address-of in value position")
         self.err(n, "unary " + op)
 
@@ -1621,7 +1634,7 @@ def generate(cfgpath, outdir):
     for mod in cfg["modules"]:
         mcfg = dict(cfg.get("common", {}))
         for k, v in mod.items():
-            if k in ("oracles", "globals", "structs", "bitfields", "tables") and k in mcfg:
+            if k in ("oracles", "globals", "structs", "bitfields", "tables", "addr_tables") and k in mcfg:
                 d = dict(mcfg[k])
                 d.update(v)
                 mcfg[k] = d
